@@ -1571,3 +1571,189 @@ def rule_loop(repo):
               "global adjacency", g.lineno)
     r.require_floor(3)
     return r
+
+
+# ---------------------------------------------------------------------------
+# R-C09-raise-resolves
+API_STATE_ERRORS = {
+    # raised for misuse of the post-elaboration API, not for an illegal design: outside the property; an unresolved
+    # one is printed as an observation only
+    'NotElaboratedError', 'InvalidAPICallError', 'UnsetMetadataError', 'PyMTLDeprecationError', 'NotImplementedError',
+}
+
+
+def _scope_names(fn):
+    names = set()
+    a = fn.args
+    for x in a.posonlyargs + a.args + a.kwonlyargs:
+        names.add(x.arg)
+    if a.vararg:
+        names.add(a.vararg.arg)
+    if a.kwarg:
+        names.add(a.kwarg.arg)
+    if isinstance(fn, ast.Lambda):
+        return names
+    for n in walk_no_nested(fn):
+        if isinstance(n, ast.Name) and isinstance(n.ctx, (ast.Store, ast.Del)):
+            names.add(n.id)
+        elif isinstance(n, ast.ExceptHandler) and n.name:
+            names.add(n.name)
+        elif isinstance(n, (ast.Import, ast.ImportFrom)):
+            for al in n.names:
+                names.add((al.asname or al.name).split('.')[0])
+        for ch in ast.iter_child_nodes(n):
+            if isinstance(ch, (ast.FunctionDef, ast.AsyncFunctionDef, ast.ClassDef)):
+                names.add(ch.name)
+    return names
+
+
+def _bound(repo, mod, node, name):
+    """is `name` bound at `node` (function scopes outward, module, builtins)?  None = cannot tell"""
+    cur = node
+    while True:
+        fn = enclosing(cur, (ast.FunctionDef, ast.AsyncFunctionDef, ast.Lambda))
+        if fn is None:
+            break
+        if name in _scope_names(fn):
+            return True
+        cur = fn
+    if name in mod.classes or name in mod.functions or name in mod.assigns or name in mod.imports:
+        # an imported name must exist in the module it is imported from (when that module is in the repo)
+        if name in mod.imports:
+            dotted, orig = mod.imports[name]
+            if orig is not None and repo.dotted_to_rel(dotted) is not None and repo.resolve(mod, name) is None:
+                return False
+        return True
+    for st in mod.tree.body:          # other module-level bindings (for targets, with, tuple assignments)
+        for n in walk_no_nested(st):
+            if isinstance(n, ast.Name) and isinstance(n.ctx, ast.Store) and n.id == name:
+                return True
+    if hasattr(builtins, name):
+        return True
+    unknown_star = False
+    for dotted in mod.star_imports:
+        if repo.dotted_to_rel(dotted) is None:
+            unknown_star = True
+    if repo.resolve(mod, name) is not None:
+        return True
+    return None if unknown_star else False
+
+
+def _init_arity(repo, cmod, cdef):
+    """(min, max|None, keyword names) of the first __init__ in the repo-visible MRO, or None (inherits Exception's)"""
+    for m2, c2 in repo.mro(cmod, cdef):
+        for st in m2._defs_in(c2.body):
+            if isinstance(st, ast.FunctionDef) and st.name == '__init__':
+                a = st.args
+                pos = [x.arg for x in a.posonlyargs + a.args][1:]
+                mn = len(pos) - len(a.defaults)
+                mx = None if a.vararg else len(pos)
+                kw = None if a.kwarg else set(pos) | {x.arg for x in a.kwonlyargs}
+                return mn, mx, kw
+    return None
+
+
+def _check_raise(repo, mod, rs):
+    """-> (kind, message) ; kind in 'ok' | 'bad' | 'obs' | 'skip'"""
+    exc = rs.exc
+    if exc is None:
+        return 'skip', None
+    callee = exc.func if isinstance(exc, ast.Call) else exc
+    if not isinstance(callee, (ast.Name, ast.Attribute)):
+        return 'skip', None
+    base = callee
+    while isinstance(base, ast.Attribute):
+        base = base.value
+    if not isinstance(base, ast.Name):
+        return 'skip', None
+    cname = callee.id if isinstance(callee, ast.Name) else callee.attr
+    api = cname in API_STATE_ERRORS
+    problems = []
+    # a caught / locally built exception object re-raised
+    fn = enclosing(rs, (ast.FunctionDef, ast.AsyncFunctionDef, ast.Lambda))
+    if isinstance(callee, ast.Name) and not isinstance(exc, ast.Call) and fn is not None and callee.id in _scope_names(fn):
+        return 'skip', None
+    b = _bound(repo, mod, rs, base.id)
+    if b is False:
+        problems.append(f"exception class name `{base.id}` is not bound in {mod.rel} (not imported / misspelt): reaching "
+                        f"this statement raises NameError instead of {cname}")
+    elif b is True and isinstance(callee, ast.Name) and isinstance(exc, ast.Call):
+        rc = repo.resolve_class(mod, callee)
+        if rc is not None:
+            ar = _init_arity(repo, rc[0], rc[1])
+            if ar is not None and not any(isinstance(a, ast.Starred) for a in exc.args) \
+                    and not any(k.arg is None for k in exc.keywords):
+                mn, mx, kw = ar
+                npos = len(exc.args)
+                kws = [k.arg for k in exc.keywords]
+                total = npos + len(kws)
+                if npos > (mx if mx is not None else npos) or total < mn or (kw is not None and any(k not in kw for k in kws)):
+                    problems.append(f"{cname}.__init__ takes {mn}{'' if mx == mn else '..' + str(mx if mx is not None else '*')} "
+                                    f"arguments, {total} given: reaching this statement raises TypeError instead of {cname}")
+    if isinstance(exc, ast.Call):
+        comp_bound = {n.id for n in ast.walk(exc) if isinstance(n, ast.Name) and isinstance(n.ctx, ast.Store)}
+        lam = set()
+        for n in ast.walk(exc):
+            if isinstance(n, ast.Lambda):
+                lam |= _scope_names(n)
+        seen = set()
+        for a in list(exc.args) + [k.value for k in exc.keywords]:
+            for n in ast.walk(a):
+                if isinstance(n, ast.Name) and isinstance(n.ctx, ast.Load) and n.id not in comp_bound | lam | seen:
+                    seen.add(n.id)
+                    if _bound(repo, mod, rs, n.id) is False:
+                        problems.append(f"name `{n.id}` used to build the message is not bound here: reaching this "
+                                        f"statement raises NameError instead of {cname}")
+    if problems:
+        return ('obs' if api else 'bad'), '; '.join(problems)
+    return 'ok', None
+
+
+def rule_raise_resolves(repo):
+    r = RuleResult('R-C09-raise-resolves', "every raise of a design-rule error in pymtl3/dsl names a bound class whose "
+                                           "__init__ accepts the arguments given and builds its message from bound names")
+    from sa.loader import Module
+    for rel in DSL_FILES:
+        mod = repo.mod(rel)
+        for rs in [n for n in ast.walk(mod.tree) if isinstance(n, ast.Raise)]:
+            kind, msg = _check_raise(repo, mod, rs)
+            if kind == 'skip':
+                continue
+            fq = qualname(rs) or '<module>'
+            exc = rs.exc
+            cn = norm(exc.func if isinstance(exc, ast.Call) else exc)
+            gs = [g for g in guards_of(rs) if g.kind in ('if', 'except')]
+            cons = f"raise {cn} under: {('' if gs[0].polarity else 'not ') + norm(gs[0].test)[:70] if gs else 'always'}"
+            r.evaluations += 1
+            if kind == 'ok':
+                r.ok(mod, fq, cons, nontrivial=isinstance(exc, ast.Call))
+            elif kind == 'obs':
+                r.observations.append(f"{rel}: {fq}: {msg} (API-state error, outside the property)")
+            else:
+                r.bad(mod, fq, cons, msg, rs.lineno)
+        for h in [n for n in ast.walk(mod.tree) if isinstance(n, ast.ExceptHandler) and n.type is not None]:
+            for t in (h.type.elts if isinstance(h.type, ast.Tuple) else [h.type]):
+                if isinstance(t, ast.Name) and _bound(repo, mod, h, t.id) is False:
+                    r.observations.append(f"{rel}: {qualname(h)}: except clause names unbound `{t.id}` "
+                                          f"(evaluated only when the try body raises)")
+    # embedded positive example
+    probe = Module(repo, 'pymtl3/dsl/_c09_probe.py',
+                   "from .errors import MultiWriterError\n"
+                   "def f(s):\n"
+                   "  raise InvalidPlaceholderError('x {}'.format(blk.__name__))\n"
+                   "def g(s, blk):\n"
+                   "  raise MultiWriterError('x {}'.format(blk.__name__))\n"
+                   "def h(s):\n"
+                   "  raise NoWriterError()\n"
+                   "from .errors import NoWriterError\n")
+    res = [_check_raise(repo, probe, n) for n in ast.walk(probe.tree) if isinstance(n, ast.Raise)]
+    kinds = [k for k, _ in res]
+    if kinds != ['bad', 'ok', 'bad'] or 'InvalidPlaceholderError' not in res[0][1] or '`blk`' not in res[0][1] \
+            or 'TypeError' not in res[2][1]:
+        raise AnalysisError(f"R-C09-raise-resolves: embedded probe not judged as expected: {res}")
+    r.require_floor(40)
+    return r
+
+
+RULES = [rule_overlap, rule_slicekey, rule_pipeline, rule_mw_guard, rule_mw_cover, rule_porttable, rule_optable,
+         rule_nowriter, rule_loop, rule_raise_resolves]
